@@ -1,6 +1,7 @@
 package main
 
 import (
+	"go/token"
 	"go/types"
 	"sort"
 	"strings"
@@ -347,8 +348,22 @@ func ruleC02(c *Ctx) {
 				// result pushed un-negated
 				pushed := false
 				for _, pb := range callsTo(cs, false, "(*protocol/vm.virtualMachine).pushBool") {
-					if pb.Common().Args[1] == v.Value() {
+					arg := pb.Common().Args[1]
+					if arg == v.Value() {
 						pushed = true
+					} else if phi, isPhi := arg.(*ssa.Phi); isPhi {
+						// `ok := false; if … { ok = Verify(…) }; pushBool(ok)`: Verify's result or the constant false
+						all, some := true, false
+						for _, e := range phi.Edges {
+							if e == v.Value() {
+								some = true
+							} else if k, isK := e.(*ssa.Const); !isK || k.Value == nil || k.Value.ExactString() != "false" {
+								all = false
+							}
+						}
+						if all && some {
+							pushed = true
+						}
 					}
 				}
 				ok = ok && pushed
@@ -378,9 +393,12 @@ func ruleC02(c *Ctx) {
 					if !isPhi {
 						continue
 					}
-					ts := phi.Type().String()
-					isKeys := len(ts) > 2 && ts[:2] == "[]" && mentions(ver.Common().Args[0], func(v ssa.Value) bool { return v == ssa.Value(phi) }, 4, nil)
-					isSigs := len(ts) > 2 && ts[:2] == "[]" && mentions(ver.Common().Args[2], func(v ssa.Value) bool { return v == ssa.Value(phi) }, 4, nil)
+					// a cursor is a shrinking slice (x = x[1:]) or an index (i = i + 1) from which the argument is taken
+					_, isSlice := phi.Type().Underlying().(*types.Slice)
+					bt, isBasic := phi.Type().Underlying().(*types.Basic)
+					isCursor := isSlice || (isBasic && bt.Info()&types.IsInteger != 0)
+					isKeys := isCursor && mentions(ver.Common().Args[0], func(v ssa.Value) bool { return v == ssa.Value(phi) }, 4, nil)
+					isSigs := isCursor && mentions(ver.Common().Args[2], func(v ssa.Value) bool { return v == ssa.Value(phi) }, 4, nil)
 					if !isKeys && !isSigs {
 						continue
 					}
@@ -390,12 +408,17 @@ func ruleC02(c *Ctx) {
 						if !body[pred] {
 							continue // loop entry
 						}
-						var slices []*ssa.Slice
-						isAdv := func(v ssa.Value) (*ssa.Slice, bool) {
-							if s, ok := v.(*ssa.Slice); ok && s.X == ssa.Value(phi) && s.Low != nil {
-								if k, ok := s.Low.(*ssa.Const); ok && k.Value != nil && k.Value.ExactString() == "1" {
-									return s, true
-								}
+						var slices []ssa.Instruction
+						isOne := func(v ssa.Value) bool {
+							k, ok := v.(*ssa.Const)
+							return ok && k.Value != nil && k.Value.ExactString() == "1"
+						}
+						isAdv := func(v ssa.Value) (ssa.Instruction, bool) {
+							if s, ok := v.(*ssa.Slice); ok && s.X == ssa.Value(phi) && s.Low != nil && isOne(s.Low) {
+								return s, true
+							}
+							if b, ok := v.(*ssa.BinOp); ok && b.Op == token.ADD && (b.X == ssa.Value(phi) && isOne(b.Y) || b.Y == ssa.Value(phi) && isOne(b.X)) {
+								return b, true
 							}
 							return nil, false
 						}
